@@ -791,3 +791,28 @@ Proof.
         replace (v0 <? 128) with false by lia. reflexivity.
       * rewrite <- Hv. rewrite tc_val_cons. change (sbyte 0) with 0%Z. lia.
 Qed.
+
+(* ---------- Integer / Unsigned values from a primitive's content ---------- *)
+Theorem integer_from_prim_spec c : octets_ok c = true ->
+  prim_decode integer_from_primitive c = if minimal c then Ok c else CErr.
+Proof.
+  intro Hok. unfold prim_decode, integer_from_primitive. change (pure_src c (Some (len c))) with (full c).
+  unfold bind at 1. rewrite (bind_ok take_all_lim _ _ c done_src) by apply take_all_full.
+  destruct c as [|b0 [|b1 r]]; try reflexivity.
+  apply octets_ok_cons in Hok as [H0 Hok]. apply octets_ok_cons in Hok as [H1 _].
+  cbn [minimal]. rewrite (bit8_ge b1 H1).
+  destruct (b0 =? 0) eqn:E0, (b0 =? 255) eqn:E1, (128 <=? b1) eqn:E2;
+    cbn [andb orb negb]; try reflexivity;
+    replace (b1 <? 128) with (negb (128 <=? b1)) by lia; rewrite E2; reflexivity.
+Qed.
+
+Theorem unsigned_int_from_prim_spec c : octets_ok c = true ->
+  prim_decode unsigned_int_from_primitive c = if minimal c && nonneg_head c then Ok c else CErr.
+Proof.
+  intro Hok. pose proof (integer_from_prim_spec c Hok) as HI.
+  unfold prim_decode, unsigned_int_from_primitive in *. change (pure_src c (Some (len c))) with (full c) in *.
+  unfold bind at 1. unfold bind at 1. rewrite (uns_check_head_run c Hok).
+  unfold bind at 1 in HI.
+  destruct (minimal c) eqn:M; cbn [andb]; [|reflexivity].
+  destruct (nonneg_head c); [exact HI|reflexivity].
+Qed.
